@@ -32,7 +32,7 @@ Qed.
 (** One transition that may not write. *)
 Lemma estep_rows ac cfg s s' e r : Inv s -> estep ac false cfg s s' -> row_in s e r -> e ∈ ents s' -> row_in s' e r.
 Proof.
-  intros HI Hstep Hrow Hin. destruct Hstep as [s vs s' h Hvs Hp|s vs s' h Hvs Hp|s k h s' row Hk Hd|s s' HI' (Ea & Ec & Ee & Es & _ & Hc)].
+  intros HI Hstep Hrow Hin. destruct Hstep as [s vs s' h Hvs Hp|s vs s' h Hvs Hp|s k h s' row Hk Hd|s s' HI' (Ea & Ec & Ee & Es & _ & Hc & _)].
   - destruct (push_spec cfg s vs HI Hvs) as [Ho _]. rewrite Hp in Ho.
     inversion Ho as [h0 x Hlt Hh Hx|n h0 x Hfull Hn Hnc Hneq Hh Hx|]; try clear Hneq; subst.
     + by apply created_rows.
